@@ -43,17 +43,26 @@ func c05Imports(r *Run, site *decisionSite) {
 func c05ActiveScan(r *Run, site *decisionSite) {
 	r.RuleDoc("C05.R8", "the recorded active replica set is searched among all listed replica sets: no iteration of the scan skips the name comparison")
 	r.Floor("C05.R8", 1)
+	// the comparison may live in the caller of the decision or in a helper it calls (the scan loop
+	// extracted into a function)
 	fn := site.caller
-	k := newKeyer(fn)
-	// the comparison blocks
 	var cmpBlocks []*ssa.BasicBlock
-	for _, b := range fn.Blocks {
-		for _, in := range b.Instrs {
-			if bo, ok := in.(*ssa.BinOp); ok && isEqCompare(bo, loadOfPath(nil, "Name"), loadOfPath(nil, "Status", "ActiveReplicaSet")) {
-				cmpBlocks = append(cmpBlocks, b)
+	for _, cand := range r.Prog.calleesWithin(site.caller, 2) {
+		var bs []*ssa.BasicBlock
+		for _, b := range cand.Blocks {
+			for _, in := range b.Instrs {
+				if bo, ok := in.(*ssa.BinOp); ok && isEqCompare(bo, loadOfPath(nil, "Name"), loadOfPath(nil, "Status", "ActiveReplicaSet")) {
+					bs = append(bs, b)
+				}
 			}
 		}
+		if len(bs) > 0 {
+			fn = cand
+			cmpBlocks = bs
+			break
+		}
 	}
+	k := newKeyer(fn)
 	pos := r.Prog.Pos(site.call.Pos())
 	if len(cmpBlocks) == 0 {
 		r.Undecided("C05.R8", "active replica set scan", pos, shortFunc(fn), "no comparison item.Name == status.activeReplicaSet found in the caller of the decision")
